@@ -20,6 +20,72 @@ import (
 	"verifharness/internal/vh"
 )
 
+// orderRound watches the order of a Push's two visible effects from outside: the transaction is in
+// the list BEFORE the token is in the Wait() channel (Mempool.tla: TokenAfterAppend; the other
+// order is the lost wake-up). One pusher pushes into an EMPTY pool with an empty token channel
+// while a spinning observer samples (token, Len) — token first. "token there, list still empty"
+// inside one push is the forbidden order. Returns the number of pushes watched.
+func orderRound(u *universe, newState bool, rng *rand.Rand) (int, string, error) {
+	s, err := newSUT(u, "memory", newState, 1<<10, 2, false, false)
+	if err != nil {
+		return 0, "", err
+	}
+	defer s.closeAll()
+	pool := s.pool
+	var epoch, barrier atomic.Int64 // epoch odd = a push is running
+	var bad atomic.Int64
+	stop := make(chan struct{})
+	var wg sync.WaitGroup
+	wg.Add(1)
+	go func() {
+		defer wg.Done()
+		w := pool.Wait()
+		for {
+			select {
+			case <-stop:
+				return
+			default:
+			}
+			for i := 0; i < 2000; i++ {
+				e1 := epoch.Load()
+				if e1%2 == 0 {
+					continue
+				}
+				tok := len(w)
+				barrier.Add(1) // keeps the two reads in program order
+				l := pool.Len()
+				if tok == 1 && l == 0 && epoch.Load() == e1 {
+					bad.Add(1)
+				}
+			}
+		}
+	}()
+	n := 0
+	for _, i := range rng.Perm(len(u.txs)) {
+		epoch.Add(1)
+		o := classify(pool.Push(context.Background(), u.fresh(i+1)))
+		epoch.Add(1)
+		if o != "ok" {
+			close(stop)
+			wg.Wait()
+			return n, fmt.Sprintf("Push(%d) = %s", i+1, o), nil
+		}
+		n++
+		pool.Pop()
+		select {
+		case <-pool.Wait():
+		default:
+		}
+	}
+	close(stop)
+	wg.Wait()
+	if b := bad.Load(); b > 0 {
+		return n, fmt.Sprintf("%d samples inside a Push showed the Wait() token present while Len() was still 0: the token is sent before the "+
+			"transaction is in the list — a consumer woken by it finds the pool empty, goes back to sleep, and nobody wakes it for this transaction", b), nil
+	}
+	return n, "", nil
+}
+
 type concInput struct {
 	Out           string `json:"out"`
 	TraceRounds   int    `json:"trace_rounds"`
@@ -479,8 +545,26 @@ func TestMempoolConcurrent(t *testing.T) {
 		out.Stats["rounds"] = rounds
 		out.Count("trace_events", len(all))
 	}
-	// ---- monitored rounds (many; unique transactions; every third round with a stalled writer)
+	// ---- order of append and token (the lost wake-up cannot be provoked from outside; its cause can be seen)
 	uU := newUniverse("U", seed)
+	if in.OnlyRound == 0 {
+		watched := 0
+		for r := 0; r < max(4, in.MonitorRounds/20); r++ {
+			n, why, err := orderRound(uU, r%2 == 0, rand.New(rand.NewSource(seed*31+int64(r))))
+			if err != nil {
+				t.Fatal(err)
+			}
+			watched += n
+			if why != "" {
+				cp := in
+				cp.Out, cp.TraceRounds, cp.MonitorRounds = "", 0, 1
+				out.Diverge(vh.Divergence{Key: "mempool-concurrent:token-before-append", What: why, Input: cp, Step: r})
+				break
+			}
+		}
+		out.Count("pushes_watched_for_token_order", watched)
+	}
+	// ---- monitored rounds (many; unique transactions; every third round with a stalled writer)
 	for r := 1; r <= in.MonitorRounds; r++ {
 		if in.OnlyRound != 0 && r != in.OnlyRound {
 			continue
